@@ -179,6 +179,9 @@ Proof. intros G. pose proof G as [H1 H2 H3 H4 H5]. unfold snap_persist. destruct
 Lemma core_restore lg nd s : node_core lg nd -> snap_strict lg s -> node_core lg (restore s nd).
 Proof. intros [H1 H2 H3 H4 H5] [S1 S2]. unfold restore. rewrite H2. constructor; cbn; auto.
   rewrite restore_onto_id; auto. rewrite S2. apply sorted_replay. Qed.
+Lemma core_install lg nd s : node_core lg nd -> snap_strict lg s -> node_core lg (install s nd).
+Proof. intros [H1 H2 H3 H4 H5] [S1 S2]. unfold install. rewrite H2. constructor; cbn; auto.
+  rewrite restore_onto_id; auto. rewrite S2. apply sorted_replay. Qed.
 Lemma core_restart lg nd : node_core lg nd -> node_core lg (restart nd).
 Proof. intros [H1 H2 H3 H4 H5]. unfold restart. constructor; cbn; auto. lia. Qed.
 
@@ -306,16 +309,13 @@ Lemma rec_snap_strict cl pend cnt late src k s : rec_inv (log cl) pend cnt late 
 Proof. intros R Es Hl. destruct (getn_cases (nn src) cl) as [[y [Hy Ey]]|[_ Ey]]; rewrite Ey in Es.
   - apply (r_snaps _ _ _ _ _ _ (R _ _ Hy) (nn k) s Es). now rewrite !of_nat_nn.
   - cbn in Es. destruct (nn k); discriminate. Qed.
-Lemma rec_last_strict cl pend cnt late n s r : rec_inv (log cl) pend cnt late (nodes cl) ->
-  rev (snaps (getn (nn n) cl)) = s :: r ->
-  (let k := cnt_of n cnt in (0 <? k) && is_late late n (k - 1)) = false -> snap_strict (log cl) s.
-Proof. intros R Er Hl. destruct (getn_cases (nn n) cl) as [[y [Hy Ey]]|[_ Ey]]; rewrite Ey in Er; [|discriminate].
-  assert (Es : snaps y = rev r ++ [s]) by (rewrite <- (rev_involutive (snaps y)), Er; reflexivity).
-  destruct (R _ _ Hy) as [_ R2 R3]. rewrite of_nat_nn in R2, R3. cbv zeta in Hl. rewrite R2 in Hl.
-  rewrite Es, app_length in Hl. cbn [length] in Hl.
-  assert (H0 : (0 <? N.of_nat (length (rev r) + 1)) = true) by (apply N.ltb_lt; lia). rewrite H0 in Hl. cbn [andb] in Hl.
-  replace (N.of_nat (length (rev r) + 1) - 1) with (N.of_nat (length (rev r))) in Hl by lia.
-  apply (R3 (length (rev r)) s); auto. rewrite Es, nth_error_app2 by lia. now rewrite Nat.sub_diag. Qed.
+Lemma is_late_none late n k : existsb (fun x : N * N => fst x =? n) late = false -> is_late late n k = false.
+Proof. unfold is_late. induction late as [|x r IH]; [reflexivity|]. cbn [existsb]. intros H. apply orb_false_iff in H. destruct H as [H1 H2].
+  rewrite H1, (IH H2). reflexivity. Qed.
+Lemma rec_all_strict cl pend cnt late n s : rec_inv (log cl) pend cnt late (nodes cl) ->
+  existsb (fun x : N * N => fst x =? n) late = false -> In s (snaps (getn (nn n) cl)) -> snap_strict (log cl) s.
+Proof. intros R Hl Hin. destruct (getn_cases (nn n) cl) as [[y [Hy Ey]]|[_ Ey]]; rewrite Ey in Hin; [|destruct Hin].
+  destruct (In_nth_error _ _ Hin) as [k Hk]. apply (r_snaps _ _ _ _ _ _ (R _ _ Hy) k s Hk). rewrite of_nat_nn. now apply is_late_none. Qed.
 Ltac split_model Em Eok := let E1 := fresh "E" in
   pose proof (f_equal fst Em) as E1; pose proof (f_equal snd Em) as Eok; cbn [fst snd] in E1, Eok; clear Em; match type of E1 with _ = ?x => subst x end.
 
@@ -408,14 +408,19 @@ Proof. intros I. cbn [step]. apply inv_upd; auto. intros P. pose proof P as [H1 
 (* ORestore: of a snapshot that is the replay of the prefix it is labelled with *)
 Lemma sim_restore cl lg sn n src k s : inv cmds cl lg sn ->
   nth_error (snaps (getn src cl)) k = Some s -> snap_strict (log cl) s ->
-  inv cmds (step cl (MRestore n src k)) lg (supd n (fun x => mksnode (fst s) (s_hist x) (s_pending x) (s_labels x)) sn) /\
+  inv cmds (step cl (MRestore n src k)) lg
+      (supd n (fun x => mksnode (fst s) (s_hist x) (s_pending x) (if Nat.eqb src n then s_labels x else s_labels x ++ [fst s])) sn) /\
   (fst s <= length lg)%nat.
 Proof. intros I Es Hs.
   split; [|destruct Hs as [S1 _]; now rewrite <- (inv_len cl lg sn I)].
   cbn [step]. rewrite Es. apply inv_upd; auto. intros P. pose proof P as [H1 H2 H3 H4 H5 H6 H7].
-  pose proof H1 as [Hd Hcr _ _ _]. pose proof (core_restore _ _ s H1 Hs) as S1.
-  unfold restore in *. rewrite Hcr in *.
-  constructor; cbn [s_applied s_pending s_labels s_hist applied pending snaps inited calls]; auto. discriminate. Qed.
+  pose proof H1 as [Hd Hcr _ _ _]. pose proof (core_restore _ _ s H1 Hs) as S1. pose proof (core_install _ _ s H1 Hs) as S2.
+  destruct (Nat.eqb src n).
+  - unfold restore in *. rewrite Hcr in *.
+    constructor; cbn [s_applied s_pending s_labels s_hist applied pending snaps inited calls]; auto. discriminate.
+  - unfold install in *. rewrite Hcr in *.
+    constructor; cbn [s_applied s_pending s_labels s_hist applied pending snaps inited calls]; auto; [|discriminate].
+    now rewrite map_app, H4. Qed.
 
 (* ORestart *)
 Lemma sim_restart cl lg sn n : inv cmds cl lg sn ->
@@ -447,16 +452,18 @@ Proof. intros I Hm. pose proof (inv_get cmds cl lg sn n I) as P. destruct I as [
 
 (* OOffline: the newest snapshot is the replay of the prefix it is labelled with *)
 Lemma sim_offline cl lg sn n l : inv cmds cl lg sn ->
-  (forall s r, rev (snaps (getn n cl)) = s :: r -> snap_strict (log cl) s) ->
+  (forall s, In s (snaps (getn n cl)) -> snap_strict (log cl) s) ->
   pins_eqb (map snd (offline (getn n cl))) l = true ->
-  match rev (s_labels (sgetn n sn)) with
+  match s_labels (sgetn n sn) with
   | [] => match l with [] => true | _ => false end
-  | lb :: _ => pins_eqb (map snd (replay (firstn lb (map (cmd_of cmds) lg)))) l end = true.
+  | lbs => pins_eqb (map snd (replay (firstn (newlbl lbs) (map (cmd_of cmds) lg)))) l end = true.
 Proof. intros I Hs Hv. pose proof (inv_get cmds cl lg sn n I) as P. destruct I as [H1 _]. rewrite <- H1.
-  rewrite (pi_labels _ _ _ P), <- map_rev. unfold offline in Hv.
-  destruct (rev (snaps (getn n cl))) as [|s r] eqn:Er; cbn [map].
-  - cbn in Hv. destruct l; [reflexivity|discriminate].
-  - destruct (Hs s r eq_refl) as [_ S2].
+  rewrite (pi_labels _ _ _ P). unfold offline in Hv.
+  destruct (snaps (getn n cl)) as [|x r] eqn:Es.
+  - cbn in Hv |- *. destruct l; [reflexivity|discriminate].
+  - cbn [map]. change (fst x :: map fst r) with (map fst (x :: r)). unfold newlbl. rewrite newest_label.
+    destruct (newest (x :: r)) as [s|] eqn:En; [|apply newest_none in En; discriminate].
+    destruct (Hs s (newest_in _ _ En)) as [_ S2].
     rewrite restore_merge_nil_id in Hv by (rewrite S2; apply sorted_replay). now rewrite S2 in Hv. Qed.
 
 (* ORecovered: a new process replays m committed entries, m0 <= m *)
@@ -519,6 +526,24 @@ Proof. intros I R. pose proof (pi_core _ _ _ (inv_get cmds cl lg sn (nn n) I)) a
   - intros x Ex [R1 R2 R3]. rewrite (getn_nth _ cl x Ex) in Hcr. unfold restore. rewrite Hcr. rewrite of_nat_nn in *.
     constructor; rewrite ?of_nat_nn; cbn [pending snaps applied]; auto.
     intros l Hl. destruct (R1 l Hl) as [b [Hb _]]. exists true. split; [eapply aget_touch_same; eauto|discriminate]. Qed.
+
+Lemma rec_install cl lg sn pend cnt late n s : inv cmds cl lg sn -> rec_inv (log cl) pend cnt late (nodes cl) ->
+  snap_strict (log cl) s ->
+  rec_inv (log cl) (touch n pend) (aput n (cnt_of n cnt + 1) cnt) late (upd (nn n) (install s) (nodes cl)).
+Proof. intros I R Hs. pose proof (pi_core _ _ _ (inv_get cmds cl lg sn (nn n) I)) as [_ Hcr _ _ _].
+  apply (rec_upd _ pend _ cnt _ late); auto.
+  - intros k Hk. now apply aget_touch_other.
+  - intros k Hk. now apply cnt_of_aput_other.
+  - intros x Ex [R1 R2 R3]. rewrite (getn_nth _ cl x Ex) in Hcr. unfold install. rewrite Hcr. rewrite of_nat_nn in *.
+    constructor; rewrite ?of_nat_nn; cbn [pending snaps applied].
+    + intros l Hl. destruct (R1 l Hl) as [b [Hb _]]. exists true. split; [eapply aget_touch_same; eauto|discriminate].
+    + rewrite cnt_of_aput_same, R2, app_length. cbn [length]. lia.
+    + intros k s0 Hs0 Hl. destruct (Nat.lt_ge_cases k (length (snaps x))) as [Hlt|Hge].
+      * rewrite nth_error_app1 in Hs0 by exact Hlt. now apply (R3 k s0 Hs0).
+      * assert (Hk : k = length (snaps x)).
+        { assert (k < length (snaps x ++ [s]))%nat by (apply nth_error_Some; congruence).
+          rewrite app_length in *. cbn [length] in *. lia. }
+        subst k. rewrite nth_error_app2, Nat.sub_diag in Hs0 by lia. cbn in Hs0. injection Hs0 as <-. exact Hs. Qed.
 
 Lemma rec_snapreq cl lg sn pend cnt late n (ok : bool) : inv cmds cl lg sn -> rec_inv (log cl) pend cnt late (nodes cl) ->
   Bool.eqb ok (match pending (getn (nn n) (step cl (MSnapReq (nn n)))) with Some _ => true | None => false end) = true ->
@@ -615,7 +640,7 @@ Proof. intros [I R] Hk Hw Em Es El.
     destruct (sim_restore cl lg sn (nn n) (nn src) (nn kk) s I Esn Hs) as [I' A]. rewrite E1 in I', A.
     split; [intros _; now apply Nat.leb_le|]. right.
     split; [|split; [reflexivity|now rewrite step_nodes_length]]. split; [exact I'|].
-    cbn [step]. rewrite Esn. cbn [log nodes]. eapply rec_restore; eauto.
+    cbn [step]. rewrite Esn. cbn [log nodes]. destruct (Nat.eqb (nn src) (nn n)); [eapply rec_restore; eauto|eapply rec_install; eauto].
   - (* ORestart *) split_model Em Eok. injection Es as <- <- <-. injection El as <- <- <-.
     split; [reflexivity|]. right.
     split; [|split; [reflexivity|now rewrite step_nodes_length]]. split; [now apply sim_restart|].
@@ -629,7 +654,7 @@ Proof. intros [I R] Hk Hw Em Es El.
     split; [intros _; exact (sim_trk cl lg sn (nn n) cs I Eok)|]. right. split; [split; [exact I|exact R]|split; [reflexivity|exact Hk]].
   - (* OOffline *) split_model Em Eok. injection Es as <- <- <-. injection El as <- <- <- Hl.
     split; [intros _|right; split; [split; [exact I|exact R]|split; [reflexivity|exact Hk]]].
-    apply (sim_offline cl lg sn (nn n) l I); auto. intros s r Er. eapply rec_last_strict; eauto.
+    apply (sim_offline cl lg sn (nn n) l I); auto. intros s Hin. eapply rec_all_strict; eauto.
   - (* ORecovered: the last event *) apply andb_true_iff in Hw. destruct Hw as [G1 G2]. apply Nat.ltb_lt in G1.
     destruct rest as [|e' r']; [|discriminate]. split; [|now left]. intros _. injection Es as <- <- <-.
     match type of Em with (match ?f with Some _ => _ | None => _ end) = _ => destruct f as [c|] eqn:F end; [|discriminate].
@@ -715,6 +740,8 @@ Proof. unfold apply_entry. destruct (crashed nd); [reflexivity|].
     repeat match goal with |- context [if ?b then _ else _] => destruct b end; reflexivity. Qed.
 Lemma pending_restore s nd : pending (restore s nd) = pending nd.
 Proof. unfold restore. destruct (crashed nd); reflexivity. Qed.
+Lemma pending_install s nd : pending (install s nd) = pending nd.
+Proof. unfold install. destruct (crashed nd); reflexivity. Qed.
 
 Lemma pending_getn_upd lg f n i l : (forall x, pending (f x) = pending x) ->
   pending (getn i (mkcluster lg (upd n f l))) = pending (nth i l node0).
@@ -732,7 +759,7 @@ Proof. destruct ev as [op|n|n|n|n src k|n]; intros H; try discriminate; cbn [ste
   - destruct (nth_error (log cl) (applied (getn n cl))) as [op|]; [|reflexivity].
     apply pending_getn_upd. intros x. apply pending_apply_entry.
   - destruct (nth_error (snaps (getn src cl)) k) as [s|]; [|reflexivity].
-    apply pending_getn_upd. intros x. apply pending_restore. Qed.
+    apply pending_getn_upd. intros x. destruct (Nat.eqb src n); [apply pending_restore|apply pending_install]. Qed.
 (* the other events touch one replica *)
 Lemma pending_step_other cl ev m i : (match ev with MSnapReq x | MPersist x | MRestart x => Nat.eqb x m | _ => false end) = true ->
   m <> i -> pending (getn i (step cl ev)) = pending (getn i cl).
@@ -782,7 +809,7 @@ Proof. induction es as [|e r IH]; intros lg ak cl pend cnt J Hg Hm; [reflexivity
   - (* OAck *) split_model Em Ha. eapply IH; [|exact Hg2|exact Hm]; exact J.
   - (* OObs *) split_model Em Ha. eapply IH; [|exact Hg2|exact Hm]; exact J.
   - (* OTrk *) split_model Em Ha. eapply IH; [|exact Hg2|exact Hm]; exact J.
-  - (* OOffline *) split_model Em Ha. cbn [is_late existsb]. rewrite andb_false_r. eapply IH; [|exact Hg2|exact Hm]; exact J.
+  - (* OOffline *) split_model Em Ha. cbn [existsb]. eapply IH; [|exact Hg2|exact Hm]; exact J.
   - (* ORecovered *) apply andb_true_iff in Hg1. destruct Hg1 as [_ G2]. destruct r; [reflexivity|discriminate].
   - (* OReady *) split_model Em Ha. eapply IH; [|exact Hg2|exact Hm]; exact J.
   - (* OStopped *) split_model Em Ha. eapply IH; [|exact Hg2|exact Hm]; exact J. Qed.
@@ -886,8 +913,8 @@ Proof.
   - split; cbn [log nodes]; auto. apply Forall_upd; auto. intros x _ [[G1 [G2 G3]] G4]. unfold snap_persist.
     destruct (pending x); (split; [repeat split; auto|exact G4]).
   - destruct (nth_error (snaps (getn src cl)) k) as [s|]; [|split; auto].
-    split; cbn [log nodes]; auto. apply Forall_upd; auto. intros x _ [[G1 [G2 G3]] G4]. unfold restore. rewrite G2.
-    split; [repeat split; auto|cbn [inited]; discriminate].
+    split; cbn [log nodes]; auto. apply Forall_upd; auto. intros x _ [[G1 [G2 G3]] G4].
+    destruct (Nat.eqb src n); [unfold restore|unfold install]; rewrite G2; (split; [repeat split; auto|cbn [inited]; discriminate]).
   - split; cbn [log nodes]; auto. apply Forall_upd; auto. intros x _ _. split; [repeat split; auto|reflexivity].
 Qed.
 Lemma run_sane2 es : forall cl, forallb good_op (log cl) = true -> Forall node_sane2 (nodes cl) -> forallb clean_ev es = true ->
@@ -905,46 +932,59 @@ Proof.
   destruct (HN nd (nth_error_In _ _ Hn)) as [_ G4]. destruct (inited nd); [reflexivity|]. specialize (G4 eq_refl). lia.
 Qed.
 
-(* the final snapshot of a clean shutdown is the replica's whole state under the label of its position; OfflineState reads it,
-   and so does the process that starts again on the folder *)
+(* after a clean shutdown the newest snapshot of the replica's store is labelled L >= its position (the final snapshot, or a
+   snapshot with a higher label that the store already held: after a snapshot was installed on a replica that was ahead of it)
+   and is the replay of the first L entries; OfflineState reads it, and so does the process that starts again on the folder *)
 Lemma shutdown_keeps_l cl n nd : nth_error (nodes cl) n = Some nd -> node_strict (log cl) nd -> inited nd = true ->
   let cl' := run cl (shutdown n) in
-  offline (getn n cl') = st nd /\
-  (let cl'' := run cl' (from_disk n (length (snaps nd))) in st (getn n cl'') = st nd /\ applied (getn n cl'') = applied nd).
+  exists L k, (applied nd <= L <= length (log cl))%nat /\
+    offline (getn n cl') = replay (firstn L (log cl)) /\
+    (let cl'' := run cl' (from_disk n k) in st (getn n cl'') = replay (firstn L (log cl)) /\ applied (getn n cl'') = L).
 Proof.
   intros Hn [H1 H2 H3 H4 H5 H6 H7] Hi. cbv zeta. unfold run, shutdown, from_disk. cbn [fold_left step log nodes].
-  assert (Hsorted : sorted (st nd)) by (rewrite H5; apply sorted_replay).
   assert (E1 : nth_error (upd n snap_req (nodes cl)) n = Some (snap_req nd)) by (now rewrite nth_error_upd, Nat.eqb_refl, Hn).
   assert (E2 : nth_error (upd n snap_persist (upd n snap_req (nodes cl))) n = Some (snap_persist (snap_req nd)))
     by (now rewrite nth_error_upd, Nat.eqb_refl, E1).
   assert (Ep : snap_persist (snap_req nd) =
                mknode (st nd) (applied nd) (inited nd) (incons nd) (dirty nd) false None (snaps nd ++ [(applied nd, st nd)]) (calls nd) (optype nd)).
   { unfold snap_req. rewrite H2, Hi, H3. reflexivity. }
-  split.
-  - rewrite getn_upd_same, E1. rewrite Ep. unfold offline. cbn [snaps]. rewrite rev_app_distr. cbn [rev app snd].
-    now apply restore_merge_nil_id.
+  set (store := snaps nd ++ [(applied nd, st nd)]) in *.
+  assert (Hall : forall s, In s store -> snap_strict (log cl) s).
+  { intros s Hin. apply in_app_or in Hin. destruct Hin as [Hin|[<-|[]]].
+    - rewrite Forall_forall in H7. now apply H7.
+    - split; cbn [fst snd]; auto. }
+  destruct (newest store) as [s|] eqn:En; [|apply newest_none in En; unfold store in En; destruct (snaps nd); discriminate].
+  pose proof (newest_in _ _ En) as Hin. destruct (Hall s Hin) as [S1 S2].
+  assert (Hge : (applied nd <= fst s)%nat).
+  { apply (newest_max store s (applied nd, st nd) En). unfold store. apply in_or_app. right. now left. }
+  destruct (In_nth_error _ _ Hin) as [k Hk].
+  assert (Hsorted : sorted (snd s)) by (rewrite S2; apply sorted_replay).
+  exists (fst s), k. split; [lia|]. split.
+  - rewrite getn_upd_same, E1. rewrite Ep. unfold offline. cbn [snaps]. rewrite En, S2.
+    apply restore_merge_nil_id. apply sorted_replay.
   - set (nodes2 := upd n snap_persist (upd n snap_req (nodes cl))).
     assert (E3 : nth_error (upd n restart nodes2) n = Some (restart (snap_persist (snap_req nd))))
       by (unfold nodes2; now rewrite nth_error_upd, Nat.eqb_refl, E2).
     assert (Eg : getn n (mkcluster (log cl) (upd n restart nodes2)) = restart (snap_persist (snap_req nd)))
       by (unfold getn; cbn [nodes]; now apply nth_error_nth).
-    cbn [log nodes]. rewrite Eg, Ep. cbn [restart snaps]. rewrite nth_error_app2, Nat.sub_diag by lia. cbn [nth_error].
-    rewrite getn_upd_same, E3, Ep. unfold restore. cbn [restart crashed st applied fst snd]. split; [now apply restore_onto_id|reflexivity].
+    rewrite Eg, Ep. cbn [restart snaps]. rewrite Hk, Nat.eqb_refl.
+    rewrite getn_upd_same, E3, Ep. unfold restore. cbn [restart crashed st applied fst snd].
+    split; [rewrite restore_onto_id by exact Hsorted; exact S2|reflexivity].
 Qed.
 
 Lemma shutdown_loses_nothing_l k es n nd j op x :
   forallb clean_ev es = true -> run_ok ev_atomic (init k) es = true -> nth_error (nodes (run (init k) es)) n = Some nd ->
-  nth_error (log (run (init k) es)) j = Some op -> (j < applied nd)%nat ->
-  writes x op = true -> existsb (writes x) (slice (S j) (applied nd) (log (run (init k) es))) = false ->
+  nth_error (log (run (init k) es)) j = Some op -> (j < applied nd)%nat -> writes x op = true ->
   let cl' := run (run (init k) es) (shutdown n) in
-  sget x (offline (getn n cl')) = effect op /\
-  sget x (st (getn n (run cl' (from_disk n (length (snaps nd)))))) = effect op.
+  exists L kk, (applied nd <= L)%nat /\
+    (existsb (writes x) (slice (S j) L (log (run (init k) es))) = false ->
+     sget x (offline (getn n cl')) = effect op /\ sget x (st (getn n (run cl' (from_disk n kk)))) = effect op).
 Proof.
-  intros Hc Ha Hn Hj Hlt Hw Hs. cbv zeta.
-  pose proof (strict_node k es n nd Hc Ha Hn) as S. pose proof S as [_ _ _ _ S5 _ _].
+  intros Hc Ha Hn Hj Hlt Hw. cbv zeta.
+  pose proof (strict_node k es n nd Hc Ha Hn) as S.
   assert (Hi : inited nd = true) by (apply (given_is_inited k es n nd Hc Hn); lia).
-  destruct (shutdown_keeps_l (run (init k) es) n nd Hn S Hi) as [E1 [E2 _]].
-  rewrite E1, E2, S5. split; eapply last_write_visible; eauto.
+  destruct (shutdown_keeps_l (run (init k) es) n nd Hn S Hi) as [L [kk [HL [E1 [E2 _]]]]].
+  exists L, kk. split; [lia|]. intros Hs. rewrite E1, E2. split; eapply last_write_visible; eauto; lia.
 Qed.
 
 (* without the lock: an operation committed, applied and acknowledged at the replica between its final snapshot and its stop
@@ -981,10 +1021,10 @@ Definition event_spec (cmds : list logop) (lg : list N) (ak : list (N * nat)) (s
   | OAck c n => exists j, (j < s_applied (sgetn (nn n) sn))%nat /\ nth_error lg j = Some c   (* acknowledged: committed and applied on the committer *)
   | OObs n o => exists l, o = Some l /\ prefix_between cmds lg (s_applied (sgetn (nn n) sn)) l
   | OTrk n cs => Permutation (map proj_call (expected_calls ops (s_hist (sgetn (nn n) sn)))) (map proj_call cs)
-  | OOffline n l => l = map snd (match rev (s_labels (sgetn (nn n) sn)) with [] => [] | lb :: _ => replay (firstn lb ops) end)
+  | OOffline n l => l = map snd (match s_labels (sgetn (nn n) sn) with [] => [] | lbs => replay (firstn (newlbl lbs) ops) end)
   | ORecovered _ m0 o => exists l, o = Some l /\ prefix_between cmds lg (nn m0) l
   | OReady n m0 _ o => exists l, o = Some l /\ prefix_between cmds lg (Nat.max (s_applied (sgetn (nn n) sn)) (nn m0)) l
-  | OStopped n => (nget n ak <= lastlbl (s_labels (sgetn (nn n) sn)))%nat            (* acknowledged at n: below the snapshot n leaves on disk *)
+  | OStopped n => (nget n ak <= newlbl (s_labels (sgetn (nn n) sn)))%nat            (* acknowledged at n: below the snapshot n leaves on disk *)
   | _ => True
   end.
 Fixpoint trace_spec (cmds : list logop) (lg : list N) (ak : list (N * nat)) (sn : list snode) (es : list oevent) : Prop :=
@@ -1008,7 +1048,7 @@ Proof. destruct e as [c|n j|n j|n okk|n|n src kk lbl|n|c n|n o|n cs|n l|n m0 o|n
   - now apply acked_nth.
   - destruct o as [l|]; [|discriminate]. exists l. split; auto. now apply existsb_prefix.
   - now apply multiset_eqb_perm.
-  - destruct (rev (s_labels (sgetn (nn n) sn))) as [|lb r]; [destruct l; [reflexivity|discriminate]|].
+  - destruct (s_labels (sgetn (nn n) sn)) as [|lb r]; [destruct l; [reflexivity|discriminate]|].
     apply pins_eqb_sound in H. now symmetry.
   - destruct o as [l|]; [|discriminate]. exists l. split; auto. now apply existsb_prefix.
   - destruct o as [l|]; [|discriminate]. exists l. split; auto. now apply existsb_prefix.
@@ -1056,6 +1096,11 @@ Proof. induction lg as [|x r IH]; intros j H; [destruct j; discriminate|]. cbn [
   destruct (N.eqb_spec x c) as [->|Hne]; [exists O; auto|].
   destruct j as [|j]; [cbn in H; congruence|]. destruct (IH j H) as [j0 [E1 E2]]. rewrite E1. exists (S j0). auto. Qed.
 
+Lemma sgetn_supd_applied i f g a : (forall s, s_applied (f s) = a) -> forall sn,
+  s_applied (sgetn i (supd i f (supd i g sn))) = a \/ (i >= length sn)%nat.
+Proof. intros Hf. induction i as [|i IH]; intros [|y r]; cbn [supd sgetn nth length]; auto; try (right; lia).
+  destruct (IH r) as [E|E]; [left; exact E|right; lia]. Qed.
+
 (* for every trace the monitor accepts: an operation acknowledged at n before Shutdown returned on n is in the committed sequence
    below the label lb of the snapshot n leaves on disk; what OfflineState returns right afterwards is the pinset
    replay (firstn lb ops), which holds the operation's effect for the cid it writes unless an entry between it and lb writes the
@@ -1084,21 +1129,20 @@ Proof. intros Hp H Hw. apply (monitor_sound_l k cmds _ Hp) in H.
   cbn [trace_spec] in H. destruct H as [Hstop H]. cbn [event_spec] in Hstop.
   cbn [spec_step fst snd ack_step] in H. cbn [trace_spec] in H. destruct H as [Hoff H]. cbn [event_spec] in Hoff. cbv zeta in Hoff.
   set (ops := map (cmd_of cmds) lg3) in *.
-  set (lb := lastlbl (s_labels (sgetn (nn n) sn3))) in *.
+  set (lb := newlbl (s_labels (sgetn (nn n) sn3))) in *.
   assert (Hnth : nth_error ops j = Some (cmd_of cmds c)).
   { unfold ops. apply map_nth_error. rewrite Elg, nth_error_app1; [exact Ej|]. apply nth_error_Some. congruence. }
   assert (Hl : l = map snd (replay (firstn lb ops))).
-  { unfold lb, lastlbl in *. destruct (rev (s_labels (sgetn (nn n) sn3))) as [|lb0 r]; [lia|exact Hoff]. }
+  { unfold lb in *. destruct (s_labels (sgetn (nn n) sn3)) as [|lb0 r]; [cbn in Hstop; lia|exact Hoff]. }
   exists ops, lb, j. split; [lia|]. split; [exact Hnth|]. split; [exact Hl|]. split.
   - intros Hs. eapply last_write_visible; eauto. lia.
   - intros src kk lbl o post' -> Hlb. cbn [spec_step fst snd ack_step] in H.
     cbn [trace_spec] in H. destruct H as [_ H]. cbn [spec_step fst snd ack_step] in H.
     cbn [trace_spec] in H. destruct H as [_ H]. cbn [spec_step fst snd ack_step] in H.
     cbn [trace_spec] in H. destruct H as [Hobs _]. cbn [event_spec] in Hobs. destruct Hobs as [l' [-> [m [Hm ->]]]].
-    assert (Ea : s_applied (sgetn (nn n) (supd (nn n) (fun s => mksnode (nn lbl) (s_hist s) (s_pending s) (s_labels s))
+    assert (Ea : s_applied (sgetn (nn n) (supd (nn n) (fun s => mksnode (nn lbl) (s_hist s) (s_pending s) (if Nat.eqb (nn src) (nn n) then s_labels s else s_labels s ++ [nn lbl]))
                    (supd (nn n) (fun s => mksnode 0 (s_hist s) None (s_labels s)) sn3))) = nn lbl \/ (nn n >= length sn3)%nat).
-    { clear. revert sn3. induction (nn n) as [|i IH]; intros [|y r]; cbn [supd sgetn nth length s_applied]; auto; try (right; lia).
-      destruct (IH r) as [E|E]; [left; exact E|right; cbn [length]; lia]. }
+    { apply sgetn_supd_applied. intros s0. reflexivity. }
     exists m. fold ops. destruct Ea as [Ea|Ea].
     + rewrite Ea in Hm. split; [lia|]. split; [reflexivity|]. intros Hs. eapply last_write_visible; eauto. lia.
     + exfalso. assert (E0 : sgetn (nn n) sn3 = snode0) by (unfold sgetn; apply nth_overflow; lia).
